@@ -132,6 +132,13 @@ Definition mass_row (e : elem) :=
   | None => (ename e, 0%nat, false, None, enPe e) end.
 Definition mass_table := Eval vm_compute in map mass_row all_elems.
 
+Lemma not_in_filter_names (f : elem -> bool) (L : list elem) e : In e L ->
+  ~ In (ename e) (map ename (filter (fun e => negb (f e)) L)) -> f e = true.
+Proof.
+  intros He Hn. destruct (f e) eqn:E; [reflexivity|]. exfalso. apply Hn. apply in_map.
+  apply (proj2 (filter_In _ _ _)). split; [assumption|]. now rewrite E.
+Qed.
+
 (* x'Mx = rho sum_p w_p |J_p| (sum_i N_i(p) x_i)^2 (C02_mass.v); with weights > 0 it vanishes only
    if every N-sample vanishes; the sample matrix has rank nPe (mod p), so only for x = 0 —
    independently of the element's geometry as long as det J <> 0 at the points *)
@@ -139,12 +146,10 @@ Theorem C02_mass_rule_full_rank : forall e, In e all_elems -> ~ In (ename e) def
   exists r, lookup (ename e) "mass" = Some r /\ weights_pos r = true /\ nsample_rank e r = Some (enPe e).
 Proof.
   intros e He Hn. rewrite <- deficient_mass_eq in Hn.
-  destruct (mass_ok e) eqn:E.
-  - unfold mass_ok in E. destruct (lookup (ename e) "mass") as [r|]; [|discriminate].
-    apply andb_true_iff in E as [Hw Hr]. destruct (nsample_rank e r) as [rk|] eqn:Erk; [|discriminate].
-    apply Nat.eqb_eq in Hr. subst rk. exists r. split; [reflexivity|]. split; [exact Hw | exact Erk].
-  - exfalso. apply Hn. unfold deficient_mass_def. apply in_map. apply filter_In. split; [assumption|].
-    now rewrite E.
+  pose proof (not_in_filter_names mass_ok all_elems e He Hn) as E.
+  unfold mass_ok in E. destruct (lookup (ename e) "mass") as [r|]; [|discriminate].
+  apply andb_true_iff in E as [Hw Hr]. destruct (nsample_rank e r) as [rk|] eqn:Erk; [|discriminate].
+  apply Nat.eqb_eq in Hr. subst rk. exists r. split; [reflexivity|]. split; [exact Hw | exact Erk].
 Qed.
 
 Lemma not_in_by_eqb (s : string) l : existsb (String.eqb s) l = false -> ~ In s l.
